@@ -71,8 +71,17 @@ def canon_model(interp, v, depth=0):
         return v.as_bbytes().to_host()
     if isinstance(v, GenObj):
         return ('gen', [canon_model(interp, x) for x in interp.iterate(v)])
+    from .interp import SeqVal
+    if isinstance(v, SeqVal):
+        return [canon_model(interp, v.item(j)) for j in range(int(v.n))]
     if isinstance(v, (list, tuple)):
-        return type(v)(canon_model(interp, x) for x in v)
+        out = []
+        for x in v:
+            if isinstance(x, SeqVal):
+                out.extend(canon_model(interp, x))      # a uniform run of items inside a yielded sequence
+            else:
+                out.append(canon_model(interp, x))
+        return type(v)(out)
     if isinstance(v, dict):
         return {k: canon_model(interp, x) for k, x in v.items()}
     if isinstance(v, OpaqueStr):
